@@ -134,6 +134,82 @@ def check_sibling_gates(ctx, gates):
              f"each copy exists under the same conditions as its siblings; {len(GATE_EXCEPTIONS)} tabled exceptions")
 
 
+def check_ref_implies_def(ctx, gates):
+    """every intra-crate call: the effective cfg of the calling function must imply the effective cfg of the called one - otherwise
+    the feature set that satisfies the first but not the second compiles a call to a function that does not exist (E0425) """
+    import itertools
+    import re as _re
+    from .. import cfggate as G
+    from ..facts import facts
+    n_edges = n_checked = 0
+    cache = {}
+    reported = set()
+    for crate in ("wow_login_messages", "wow_world_messages", "wow_world_base"):
+        src = os.path.join(REPO, crate, "src")
+        recs = {f: r for f, r in gates.items() if f.startswith(src + os.sep)}
+        try:
+            inh, _unres = G.module_tree(src, recs)
+        except G.GateError:
+            continue
+        by_file = {}
+        for f, rs in recs.items():
+            if f not in inh:
+                continue
+            for d in rs:
+                if d["kind"] in ("fn", "impl-fn", "trait-fn"):
+                    by_file.setdefault((os.path.relpath(f, REPO), d["name"]), []).append((d["line"], inh[f] + d["enclosing"] + d["own"]))
+        F = facts(crate)
+        eff = {}
+        for fn in F.all("fn"):
+            c = by_file.get((fn["file"], fn["name"]))
+            if not c:
+                continue
+            line, e = min(c, key=lambda x: abs(x[0] - (fn["line"] or 0)))
+            if len(c) > 1 and abs(line - (fn["line"] or 0)) > 12:
+                continue
+            eff[fn["path"]] = e
+        for m in F.all("mir"):
+            caller = _re.sub(r"(::\{closure#\d+\})+$", "", m["path"])
+            ec = eff.get(caller)
+            if ec is None:
+                continue
+            for call in m["calls"]:
+                callee = call[2] if call[2] not in ("-", None) else call[1]
+                if not callee or not callee.startswith("crate::"):
+                    continue
+                callee = _re.sub(r"(::\{closure#\d+\})+$", "", callee)
+                ed = eff.get(callee)
+                if ed is None or callee == caller:
+                    continue
+                n_edges += 1
+                k = (tuple(ec), tuple(ed))
+                if k not in cache:
+                    n_checked += 1
+                    try:
+                        pc, pd = [G.parse_pred(t) for t in ec], [G.parse_pred(t) for t in ed]
+                        at = set()
+                        for p_ in pc + pd:
+                            G.atoms(p_, at)
+                        at = sorted(at)
+                        bad = None
+                        if len(at) <= 14:
+                            for combo in itertools.product((False, True), repeat=len(at)):
+                                env = dict(zip(at, combo))
+                                if all(G.ev(p_, env) for p_ in pc) and not all(G.ev(p_, env) for p_ in pd):
+                                    bad = [a.replace("feature=", "") for a, c in zip(at, combo) if c]
+                                    break
+                        cache[k] = bad
+                    except G.GateError as e:
+                        cache[k] = None
+                bad = cache[k]
+                if bad is not None and (caller, callee) not in reported:
+                    reported.add((caller, callee))
+                    fnr = F.fn(caller)
+                    ctx.violate("cfg.ref-implies-def", f"{crate}|{caller}|{callee}", f"{crate}: {caller} (compiled under {ec}) calls {callee} (compiled only under {ed}): with features [{', '.join(bad) or 'none'}] the caller exists "
+                                "but the callee does not, so that configuration does not build", fnr["file"] if fnr else None, fnr["line"] if fnr else None)
+    ctx.rule("cfg.ref-implies-def", n_edges, floor=20000, note=f"intra-crate call edges between functions whose effective cfgs are known ({n_checked} distinct cfg pairs): the caller's condition implies the callee's")
+
+
 def run(ctx):
     tier = ctx.tier
     # ---- D2: cfg positions ----------------------------------------------------------------------
@@ -195,6 +271,7 @@ def run(ctx):
     ctx.rule("cfg.no-negation", n_cfg, floor=9000, note=f"cfg predicates without a negated feature ({n_neg} negated found): the all-features configuration contains every item of every configuration")
     ctx.rule("cfg.item-level", n_files - 1, floor=FILES_FLOOR, note=f"library files scanned; {n_cfg} cfg attributes, all at item level; fixture positions recognised: {fixture_hits}")
     check_sibling_gates(ctx, gates)
+    check_ref_implies_def(ctx, gates)
     # ---- D1: feature matrix ----------------------------------------------------------------------
     jobs = []
     for crate, feats in CRATES.items():
